@@ -65,7 +65,8 @@ func (rr *NSEC3) Cover(name string) bool {
 		return false
 	}
 
-	nextHash := rr.NextDomain
+	// The hashes are compared as upper case base32hex text, like ownerHash and nameHash.
+	nextHash := strings.ToUpper(rr.NextDomain)
 
 	// if empty interval found, try cover wildcard hashes so nameHash shouldn't match with ownerHash
 	if ownerHash == nextHash && nameHash != ownerHash { // empty interval
